@@ -43,6 +43,8 @@ def family_of_exception(exc, handler=None):
         return "yank-lines-count-below-1"
     if head == "AssertionError@document.py:__init__" and handler and ("[_search_next" in handler or "[_search_previous" in handler):
         return "search-text-object-other-entry"
+    if head == "AssertionError@buffer.py:go_to_index":
+        return "completion-count-below-1"
     if head == "AssertionError@buffer.py:_search":
         return "search-count-below-1"
     if head == "IndexError@key_binding/bindings/vi.py:_delete_before_multiple_cursors":
@@ -74,6 +76,8 @@ def judge(cfg, keys, r):
                 # in a read-only buffer the only way there is a handler whose edit raised the swallowed
                 # EditReadOnlyBuffer (the fix-up is skipped on that path)
                 fam = "readonly-swallowed-edit" if a["ro"] else h.split(".")[-1]
+                if tok in ("<yield>", "<release>"):
+                    fam = "async-completion-landed-in-navigation-mode"
                 out.append(({"clause": tag, "family": fam}, cl + " (after %s)" % h.split(".")[-1], j))
             else:
                 out.append(({"clause": tag, "editing": a["editing"]}, cl, j))
@@ -506,7 +510,7 @@ def gen_explore_cases(chk, all_keys):
         cases.append((cfg, keys))
         dist["search_family"] += 1
     for name, fam in (("ctrl_o_family", gen.ctrl_o_family), ("history_count_family", gen.history_count_family),
-                      ("search_history_family", gen.search_history_family)):
+                      ("search_history_family", gen.search_history_family), ("completion_family", gen.completion_family)):
         dist[name] = 0
         for cfg, keys in fam(thorough):
             cases.append((cfg, keys))
